@@ -27,10 +27,14 @@ class Tree:
         self.pyfiles = []  # relpaths of python files
         self.short_pkg = None  # a package whose files import each other by its short name (src layout)
         self.fav_externals = []
+        self.links = {}  # relpath of a symbolic link -> relpath (inside the tree) it points to
 
     def children(self, d):
         pre = d + "/"
         names = set()
+        for x in self.links:
+            if x.startswith(pre) and "/" not in x[len(pre):]:
+                names.add(x[len(pre):])
         for x in self.dirs:
             if x.startswith(pre) and "/" not in x[len(pre):]:
                 names.add(x[len(pre):])
@@ -48,13 +52,17 @@ class Tree:
         """Predicted module names of a full scan from the root (dirs and python files)."""
         out = [self.dotted(d) for d in self.dirs if "__pycache__" not in d]
         out += [self.dotted(f) for f in self.pyfiles]
+        out += [self.dotted(k) for k in self.links]
         return sorted(set(out))
 
     def spec(self):
-        return {"root": self.root, "dirs": sorted(self.dirs), "files": dict(self.files)}
+        out = {"root": self.root, "dirs": sorted(self.dirs), "files": dict(self.files)}
+        if self.links:
+            out["links"] = dict(self.links)
+        return out
 
 
-def gen_tree(rng, tname, exotic=0.0, pkg_bias=0.0):
+def gen_tree(rng, tname, exotic=0.0, pkg_bias=0.0, p_links=0.0):
     tree = Tree(tname, pick(rng, ROOTS))
     target = rng.randint(3, 26)
     max_depth = rng.randint(1, 4)
@@ -114,6 +122,23 @@ def gen_tree(rng, tname, exotic=0.0, pkg_bias=0.0):
             if twin not in tree.files and twin[:-3] not in tree.dirs:
                 tree.files[twin] = ""
                 tree.pyfiles.append(twin)
+    if rng.random() < p_links:
+        # a module or a package that is also reachable under a second name (symbolic link);
+        # never a link to one of its own ancestors (the walk would not end)
+        plain = [f for f in tree.pyfiles if not f.endswith("__init__.py") and "__pycache__" not in f]
+        pkgs = sorted(d for d in tree.pkg_depth if d != tree.root)
+        for _ in range(rng.randint(1, 2)):
+            parent = pick(rng, sorted(tree.pkg_depth))
+            name = pick(rng, NAMES)
+            existing = tree.children(parent)
+            if name in existing or (name + ".py") in existing:
+                continue
+            if plain and (not pkgs or rng.random() < 0.5):
+                tree.links[f"{parent}/{name}.py"] = pick(rng, plain)
+            else:
+                ok = [q for q in pkgs if not (parent + "/").startswith(q + "/") and parent != q]
+                if ok:
+                    tree.links[f"{parent}/{name}"] = pick(rng, ok)
     sub = sorted(d for d in tree.pkg_depth if d != tree.root)
     if sub and rng.random() < 0.35:
         tree.short_pkg = pick(rng, sub)
@@ -133,6 +158,7 @@ def variant_tree(rng, tree, tname):
     t.pyfiles = list(tree.pyfiles)
     t.short_pkg = tree.short_pkg
     t.fav_externals = list(tree.fav_externals)
+    t.links = {k: v for k, v in tree.links.items()}
     plain = [f for f in t.pyfiles if not f.endswith("__init__.py") and "__pycache__" not in f]
     rng.shuffle(plain)
     for f in plain[: rng.randint(1, max(1, len(plain) // 3))]:
@@ -152,6 +178,7 @@ def variant_tree(rng, tree, tname):
             lines.append(_wrap(rng, f"import {tgt}" if rng.random() < 0.5 else f"from {tgt} import thing"))
         t.files[f] = "\n".join(lines) + ("\n" if lines else "")
         t.pyfiles.append(f)
+    t.links = {k: v for k, v in t.links.items() if v in t.files or v in t.dirs}
     t.pyfiles.sort()
     return t
 
